@@ -1,16 +1,30 @@
 (* C18 correspondence checker. Cases are VM cases printed by `harness gen C18` (native-heavy programs: typed natives
    of arity 0-4 over i64 / f64 / bool / &str / Value / Nilable<i64> / &CaoLangTable, called through CallNative and
    through native function values, re-entrant natives call1 / try1 / call0 / rb1).
+   The harness registers every menu native behind a plain wrapper that records, BEFORE the typed wrapper of
+   traits.rs runs, the k topmost stack values (the values the script supplied, parameter 1 deepest), and
+   afterwards how the call ended; every native body records the parameters it received. These records are the
+   host-log entries that start with TDeep (harness/src/vmrun.rs, TRACE_CALLS); they are removed before the
+   model comparison and are judged by the specification oracle alone.
    Codes: 1 = the model Vm.v predicts something else (outcome incl. TaskFailure name and the number of the
               parameter whose conversion failed, globals, the host log = the converted arguments every native
               received, stack shape),
-          2 = oracle on the observations alone:
+          2 = oracle on the observations alone (independent of Vm.v):
+              - argument conversion: for every recorded invocation of a native with declared parameter types
+                T_1 .. T_k and supplied values v_1 .. v_k: if [conv_spec T_i v_i] succeeds for every i, the native
+                body ran and received exactly [conv_spec T_1 v_1; ..; conv_spec T_k v_k], in declaration order;
+                otherwise the call ended with InvalidArgument "Failed to convert function input #n" where n is the
+                first parameter in conversion order (traits.rs converts last to first) whose conversion fails, and
+                the body did not run. [conv_spec] is written from the documented conversions of value.rs
+                (TryFrom<Value> for i64 / f64 / &str / &CaoLangTable / Nilable<T>, From<Value> for bool).
               - every rb1 log entry [ "rb1"; h0; d0; h1; d1; ok; arity of the callee ]: the call stack is as deep after
                 run_function as before (d1 = d0), also when the callee failed; when the callee takes exactly the one
                 argument rb1 pushed and returns normally, the value stack is as high as before (h1 = h0). (A callee
                 of another arity takes what it finds: run_function cannot know how many values the host pushed.)
               - names starting with "__" are rejected by register_native_function, other names are accepted,
-          3 / 4 / 5 as in VmCheck. *)
+              - no run ends in a Rust panic (VmCheck.panic_code),
+          3 / 4 / 5 as in VmCheck; 3 also for a malformed record. *)
+From Coq Require Import String Ascii.
 From Cao Require Export VmCheck.
 Local Open Scope N_scope.
 
@@ -23,13 +37,176 @@ Definition rb1_entry_ok (e : list tval) : bool :=
   | _ => true
   end.
 
+(* ------------------------------------------------------------------ *)
+(* The conversion specification (value.rs), on observed values          *)
+(* ------------------------------------------------------------------ *)
+
+Inductive param_type := PInt | PFloat | PBool | PStr | PValue | PTable | PNilable (t : param_type).
+
+Inductive conv := COk (v : tval) | CFail | CUnknown.
+
+(* CaoLangObject::len: entries of a table, bytes of a string, 0 for function-like objects *)
+Definition obj_len_spec (v : tval) : option Z :=
+  match v with
+  | TStr s => Some (Z.of_nat (length s))
+  | TTable l => Some (Z.of_nat (length l))
+  | TFun => Some 0%Z
+  | _ => None
+  end.
+
+Definition tbool (x : bool) : tval := TInt (if x then 1 else 0)%Z.
+Definition nan_bits_spec : N := 9221120237041090560.
+Definition canon (r : N) : N := match fl_cmp r r with None => nan_bits_spec | Some _ => r end.
+
+(* what a parameter of type [t] receives for the supplied value [v], as the harness prints it
+   (i64: TInt, f64: TReal with NaN canonical, bool: TInt 0/1, &str: TStr, Value and &CaoLangTable: the tree,
+   Nilable: TNil for None) *)
+Fixpoint conv_spec (t : param_type) (v : tval) : conv :=
+  match t with
+  | PInt =>                                  (* TryFrom<Value> for i64: never fails *)
+      match v with
+      | TInt i => COk (TInt i)
+      | TReal r => COk (TInt (fl_to_i64 r))  (* `as i64`: truncate, saturate, NaN -> 0 *)
+      | TNil => COk (TInt 0)
+      | TDeep => CUnknown
+      | o => match obj_len_spec o with Some l => COk (TInt l) | None => CUnknown end
+      end
+  | PFloat =>                                (* TryFrom<Value> for f64: never fails *)
+      match v with
+      | TReal r => COk (TReal (canon r))
+      | TInt i => COk (TReal (fl_of_Z i))
+      | TNil => COk (TReal 0)
+      | TDeep => CUnknown
+      | o => match obj_len_spec o with Some l => COk (TReal (fl_of_Z l)) | None => CUnknown end
+      end
+  | PBool =>                                 (* Value::as_bool *)
+      match v with
+      | TNil => COk (tbool false)
+      | TInt i => COk (tbool (negb (i =? 0)%Z))
+      | TReal r => COk (tbool (match fl_cmp r 0 with Some Eq => false | _ => true end))
+      | TStr s => COk (tbool (negb (Nat.eqb (length s) 0)))
+      | TTable l => COk (tbool (negb (Nat.eqb (length l) 0)))
+      | TFun => COk (tbool true)
+      | TDeep => CUnknown
+      end
+  | PStr => match v with TStr s => COk (TStr s) | TDeep => CUnknown | _ => CFail end
+  | PTable => match v with TTable l => COk (TTable l) | TDeep => CUnknown | _ => CFail end
+  | PValue => COk v
+  | PNilable t' => match v with TNil => COk TNil | _ => conv_spec t' v end
+  end.
+
+Fixpoint bytes_of (s : string) : list N :=
+  match s with EmptyString => [] | String a r => N_of_ascii a :: bytes_of r end.
+
+(* declared parameter types of the natives registered by the harness (harness/src/vmrun.rs) *)
+Definition signatures : list (list N * list param_type) :=
+  [ (bytes_of "log1", [PValue]); (bytes_of "sub2", [PInt; PInt]); (bytes_of "fail0", []);
+    (bytes_of "str1", [PStr]); (bytes_of "mix3", [PFloat; PInt; PValue]);
+    (bytes_of "call1", [PValue; PValue]); (bytes_of "try1", [PValue; PValue]); (bytes_of "call0", [PValue]);
+    (bytes_of "t4", [PInt; PFloat; PBool; PStr]); (bytes_of "nil1", [PNilable PInt]);
+    (bytes_of "tab1", [PTable]); (bytes_of "cat2", [PStr; PStr]); (bytes_of "rb1", [PValue; PValue]) ].
+
+Fixpoint signature (name : list N) (l : list (list N * list param_type)) : option (list param_type) :=
+  match l with
+  | [] => None
+  | (n, sg) :: r => if list_eqb N.eqb n name then Some sg else signature name r
+  end.
+
+Fixpoint conv_all (sg : list param_type) (vs : list tval) : option (list conv) :=
+  match sg, vs with
+  | [], [] => Some []
+  | t :: sg', v :: vs' => match conv_all sg' vs' with Some r => Some (conv_spec t v :: r) | None => None end
+  | _, _ => None
+  end.
+
+(* 1-based number of the last parameter that fails = the first one in conversion order *)
+Fixpoint last_fail (i : Z) (l : list conv) : option Z :=
+  match l with
+  | [] => None
+  | c :: r =>
+      match last_fail (i + 1) r with
+      | Some n => Some n
+      | None => match c with CFail => Some i | _ => None end
+      end
+  end.
+Definition has_unknown (l : list conv) : bool := existsb (fun c => match c with CUnknown => true | _ => false end) l.
+Definition conv_values (l : list conv) : list tval := flat_map (fun c => match c with COk v => [v] | _ => [] end) l.
+
+(* records: kind 0 = call with the supplied values, 2 = the parameters the body received, 1 = return *)
+Definition record_of (e : list tval) : option (list N * Z * list tval) :=
+  match e with
+  | TDeep :: TStr name :: TInt kind :: items => Some (name, kind, items)
+  | _ => None
+  end.
+Definition is_record (e : list tval) : bool := match e with TDeep :: _ => true | _ => false end.
+
+(* [prev] = the call record directly before the current entry, if any *)
+Fixpoint check_records (panicked : bool) (prev : option (list N * list tval)) (l : list (list tval)) : list N :=
+  match l with
+  | [] =>
+      match prev with
+      | Some _ => if panicked then [] else [2]      (* a call that neither ran nor returned *)
+      | None => []
+      end
+  | e :: rest =>
+      if is_record e then
+        match record_of e with
+        | None => [3]
+        | Some (name, kind, items) =>
+            if (kind =? 0)%Z then
+              (match prev with Some _ => [2] | None => [] end) ++ check_records panicked (Some (name, items)) rest
+            else
+              (match prev with
+               | None =>
+                   (* a record that does not directly follow a call: only a return without conversion failure *)
+                   if (kind =? 1)%Z then match items with [TInt r] => if (r <=? 0)%Z then [] else [2] | _ => [3] end
+                   else [2]
+               | Some (cname, raws) =>
+                   if negb (list_eqb N.eqb cname name) then [2]
+                   else
+                     match signature cname signatures with
+                     | None => [3]
+                     | Some sg =>
+                         match conv_all sg raws with
+                         | None => [3]
+                         | Some cs =>
+                             if has_unknown cs then [3]
+                             else
+                               match last_fail 1 cs with
+                               | None =>
+                                   (* every conversion succeeds: the body ran with exactly these parameters *)
+                                   if (kind =? 2)%Z && list_eqb tval_eqb items (conv_values cs) then [] else [2]
+                               | Some n =>
+                                   (* InvalidArgument naming parameter n, the body did not run *)
+                                   if (kind =? 1)%Z then
+                                     match items with [TInt r] => if (r =? n)%Z then [] else [2] | _ => [3] end
+                                   else [2]
+                               end
+                         end
+                     end
+               end) ++ check_records panicked None rest
+        end
+      else
+        (match prev with Some _ => [2] | None => [] end) ++ check_records panicked None rest
+  end.
+
+Definition strip_obs (o : obs) : obs :=
+  mkObs (ob_out o) (ob_globals o) (filter (fun e => negb (is_record e)) (ob_log o)) (ob_shape o).
+Definition strip_case (c : vmcase) : vmcase :=
+  match c with
+  | VmProg d m P runs => VmProg d m P (map (fun r => (fst r, strip_obs (snd r))) runs)
+  | c => c
+  end.
+
 Definition oracle (c : vmcase) : list N :=
   match c with
   | VmProg _ _ _ runs =>
-      flat_map (fun r => if forallb rb1_entry_ok (ob_log (snd r)) then [] else [2]) runs
+      flat_map (fun r => if forallb rb1_entry_ok (ob_log (snd r)) then [] else [2]) runs ++
+      flat_map (fun r => check_records (match ob_out (snd r) with ObPanic => true | _ => false end) None
+                                       (ob_log (snd r))) runs
   | VmReserved answers => if forallb (fun b => b) answers then [] else [2]
   | VmOpTable _ => []
   end.
 
-Definition check1 (c : vmcase) : list N := VmCheck.check1 c ++ oracle c.
+Definition check1 (c : vmcase) : list N := VmCheck.check1 (strip_case c) ++ oracle c.
 Definition check_all := CheckUtil.check_all check1.
